@@ -16,6 +16,11 @@ ASSUMPTIONS = ['timer queue contract (C10): actions run once, at their rounded d
 
 
 def gen_script(rng, tier):
+    if rng.random() < 0.2:
+        import e2e
+        sc = e2e.gen_script(rng, tier)
+        sc['kind'] = 'e2e'
+        return sc
     steps = []
     n = rng.choice([6, 12, 20, 30, 40])
     open_at = rng.choice([0, 0, 0, 1, 3, 8, None])      # index of the step after which open completes
@@ -54,6 +59,11 @@ def gen_script(rng, tier):
 
 
 def shrink(script):
+    if script.get('kind') == 'e2e':
+        import e2e
+        for s in e2e.shrink(script):
+            yield s
+        return
     st = script['steps']
     for i in range(len(st)):
         if st[i][0] == 'issue':
@@ -74,6 +84,9 @@ class E(Exception):
 
 
 def run_script(script):
+    if script.get('kind') == 'e2e':
+        import e2e
+        return e2e.run_script(script, 'e2e1')
     import rt
     import scales.dispatch as dispatch
     import scales.sink as sinkmod
